@@ -190,3 +190,130 @@ Example C10_ex_verify_accepts :
   map q_value qs = [[3]; [4]; []] /\
   verify BE BL BB bh_eqb (fun _ => false) ex_keys sibs (Q [0x13] [9] (q_bitmap (nth 0 qs (Q [] [] []))) :: tl qs) ex_root 1 = VFalse.
 Proof. vm_compute. repeat split; reflexivity. Qed.
+
+(* ================= LAYERED MODEL of the Go update path and its node store (SMT/Layered.v) =================
+   [layered_history hempty hleaf hbranch heqb h lv (store, root) batches] runs trie.Update batch after batch on the
+   model of smt.go's storage design: sub-trees of height h (the code: 8 or 4) stored under their root hash as
+   (structure, nodes), stubs for lower sub-trees, getSubtree / db.Set / db.Del as in updateSubtree / updateNode,
+   calculateSubTree's collapsing; keys have lv*h bits; [None] = an error or panic of the Go code.  The trie object of
+   the Go code holds nothing but the root hash, so a re-opened trie is the pair (store, root) again.
+   Hash hypotheses (explicit): equality test exact, branch hash injective, leaf hash injective among keys of equal
+   length, leaf / branch / empty disjoint. *)
+From Coq Require Import Permutation Arith.
+From LE Require Import SMT.Layered SMT.LayeredBatch SMT.LayeredProofs SMT.LayeredTop.
+Local Open Scope nat_scope.
+
+(* REFINEMENT.  From the empty trie, for every sub-tree height h > 0, every number of layers and every history of batches
+   (keys of (S lv')*h bits): the layered update never fails; its root is the LIP-0039 root of the resulting map and the
+   hash of the reference trie of C10_history_independent (so all reference theorems transfer to the sub-tree design);
+   and the store holds every sub-tree reachable from that root: reading the trie back through the store ([abs], what
+   NewTrie + getSubtree do, recursively through the stubs) gives a well-formed reference trie t holding exactly that map
+   whose hash is the root. *)
+Theorem C10_layered_refines :
+  forall (V Hsh : Type) (hempty : Hsh) (hleaf : key -> V -> Hsh) (hbranch : Hsh -> Hsh -> Hsh) (heqb : Hsh -> Hsh -> bool),
+    (forall a b, heqb a b = true <-> a = b) ->
+    (forall a b c d, hbranch a b = hbranch c d -> a = c /\ b = d) ->
+    (forall k v k' v', length k = length k' -> hleaf k v = hleaf k' v' -> k = k' /\ v = v') ->
+    (forall k v a b, hleaf k v <> hbranch a b) ->
+    (forall k v, hleaf k v <> hempty) ->
+    (forall a b, hbranch a b <> hempty) ->
+    forall (h lv' : nat) (bs : list (list (@op V))), 0 < h -> keys_ok (S lv' * h) bs ->
+    exists s t,
+      layered_history hempty hleaf hbranch heqb h (S lv') ([], hempty) bs = Some (s, hash hempty hleaf hbranch t) /\
+      hash hempty hleaf hbranch t = smt_root hempty hleaf hbranch (S lv' * h) (fold_left map_batch bs []) /\
+      hash hempty hleaf hbranch t = hash hempty hleaf hbranch (fold_left (batch_update (S lv' * h)) bs E) /\
+      abs hempty heqb h (S lv') s (hash hempty hleaf hbranch t) = Some t /\
+      wf (S lv' * h) 0 t /\ Permutation (tomap t) (fold_left map_batch bs []).
+Proof. exact @layered_refines. Qed.
+
+(* RE-OPENING.  After any history bs1 the store answers getSubtree for the current root (the sub-tree read hashes to that
+   root), and continuing with bs2 from the pair (store, root) — all a re-created trie object has — succeeds, ends in
+   the LIP-0039 root of the map of the whole history, and is the uninterrupted run. *)
+Theorem C10_layered_reopen_continues :
+  forall (V Hsh : Type) (hempty : Hsh) (hleaf : key -> V -> Hsh) (hbranch : Hsh -> Hsh -> Hsh) (heqb : Hsh -> Hsh -> bool),
+    (forall a b, heqb a b = true <-> a = b) ->
+    (forall a b c d, hbranch a b = hbranch c d -> a = c /\ b = d) ->
+    (forall k v k' v', length k = length k' -> hleaf k v = hleaf k' v' -> k = k' /\ v = v') ->
+    (forall k v a b, hleaf k v <> hbranch a b) ->
+    (forall k v, hleaf k v <> hempty) ->
+    (forall a b, hbranch a b <> hempty) ->
+    forall (h lv' : nat) (bs1 bs2 : list (list (@op V))), 0 < h -> keys_ok (S lv' * h) (bs1 ++ bs2) ->
+    exists s1 r1 st,
+      layered_history hempty hleaf hbranch heqb h (S lv') ([], hempty) bs1 = Some (s1, r1) /\
+      layered_open hempty heqb h s1 r1 = Some st /\ shash hempty hleaf hbranch st = r1 /\
+      exists s2 r2,
+        layered_history hempty hleaf hbranch heqb h (S lv') (s1, r1) bs2 = Some (s2, r2) /\
+        r2 = smt_root hempty hleaf hbranch (S lv' * h) (fold_left map_batch (bs1 ++ bs2) []) /\
+        layered_history hempty hleaf hbranch heqb h (S lv') ([], hempty) (bs1 ++ bs2) = Some (s2, r2).
+Proof. exact @layered_reopen_continues. Qed.
+
+(* SUB-TREE LAYOUT.  Two sub-tree heights dividing the key length (the code: 4 and 8) give the same root after every history. *)
+Theorem C10_layered_layout_independent :
+  forall (V Hsh : Type) (hempty : Hsh) (hleaf : key -> V -> Hsh) (hbranch : Hsh -> Hsh -> Hsh) (heqb : Hsh -> Hsh -> bool),
+    (forall a b, heqb a b = true <-> a = b) ->
+    (forall a b c d, hbranch a b = hbranch c d -> a = c /\ b = d) ->
+    (forall k v k' v', length k = length k' -> hleaf k v = hleaf k' v' -> k = k' /\ v = v') ->
+    (forall k v a b, hleaf k v <> hbranch a b) ->
+    (forall k v, hleaf k v <> hempty) ->
+    (forall a b, hbranch a b <> hempty) ->
+    forall (h1 h2 lv1 lv2 : nat) (bs : list (list (@op V))), 0 < h1 -> 0 < h2 -> S lv1 * h1 = S lv2 * h2 ->
+    keys_ok (S lv1 * h1) bs ->
+    exists s1 s2 r,
+      layered_history hempty hleaf hbranch heqb h1 (S lv1) ([], hempty) bs = Some (s1, r) /\
+      layered_history hempty hleaf hbranch heqb h2 (S lv2) ([], hempty) bs = Some (s2, r).
+Proof. exact @layered_layout_independent. Qed.
+
+(* The layered root is a function of the final map only (order, batching, overwrites, intermediate deletions). *)
+Theorem C10_layered_root_is_function_of_map :
+  forall (V Hsh : Type) (hempty : Hsh) (hleaf : key -> V -> Hsh) (hbranch : Hsh -> Hsh -> Hsh) (heqb : Hsh -> Hsh -> bool),
+    (forall a b, heqb a b = true <-> a = b) ->
+    (forall a b c d, hbranch a b = hbranch c d -> a = c /\ b = d) ->
+    (forall k v k' v', length k = length k' -> hleaf k v = hleaf k' v' -> k = k' /\ v = v') ->
+    (forall k v a b, hleaf k v <> hbranch a b) ->
+    (forall k v, hleaf k v <> hempty) ->
+    (forall a b, hbranch a b <> hempty) ->
+    forall (h lv' : nat) (b1 b2 : list (list (@op V))), 0 < h -> keys_ok (S lv' * h) b1 -> keys_ok (S lv' * h) b2 ->
+    (forall k, mget k (fold_left map_batch b1 []) = mget k (fold_left map_batch b2 [])) ->
+    exists s1 s2 r,
+      layered_history hempty hleaf hbranch heqb h (S lv') ([], hempty) b1 = Some (s1, r) /\
+      layered_history hempty hleaf hbranch heqb h (S lv') ([], hempty) b2 = Some (s2, r).
+Proof. exact @layered_root_is_function_of_map. Qed.
+
+(* NON-VACUITY.  The free hash xh (SMT/LayeredEx.v) satisfies every hash hypothesis above (so the theorems apply to it), and on 4-bit keys
+   a history with inserts, an overwrite, and deletions that empty a lower sub-tree runs on the layered model with
+   sub-trees of height 2 (two layers) and of height 1 (four layers): same root as the reference trie, the trie read back
+   through the store is the reference trie, the lower sub-tree written by the first batch (key FB (FL 0000 1) (FL 0010 2))
+   is in the store after batch 1 and deleted by batch 2, and a store missing a reachable sub-tree makes [abs] fail. *)
+From LE Require Import SMT.LayeredEx.
+Example C10_ex_layered_hypotheses_hold :
+  (forall a b, xh_eqb a b = true <-> a = b) /\
+  (forall a b c d, XB a b = XB c d -> a = c /\ b = d) /\
+  (forall k v k' v', length k = length k' -> XL k v = XL k' v' -> k = k' /\ v = v') /\
+  (forall k v a b, XL k v <> XB a b) /\ (forall k v, XL k v <> XE) /\ (forall a b, XB a b <> XE).
+Proof. exact xh_hyps. Qed.
+
+Definition lex_hist : list (list (@op nat)) :=
+  [[([false; false; false; false], Some 1); ([false; false; true; false], Some 2); ([true; false; false; false], Some 3)];
+   [([false; false; true; true], Some 4); ([false; false; false; false], Some 5); ([false; false; false; false], Some 9)];
+   [([false; false; true; false], None); ([false; false; true; true], None); ([false; true; true; true], None)]].
+Definition lex_ref : @T nat := fold_left (batch_update 4) lex_hist E.
+Definition lex_low1 : xh := XB (XL [false; false; false; false] 1) (XL [false; false; true; false] 2).
+Example C10_ex_layered :
+  (* two layers of height 2, four layers of height 1: root of the reference trie, trie read back = reference trie *)
+  (match layered_history XE XL XB xh_eqb 2 2 ([], XE) lex_hist with
+   | Some (s, r) => r = hash XE XL XB lex_ref /\ abs XE xh_eqb 2 2 s r = Some lex_ref
+   | None => False end) /\
+  (match layered_history XE XL XB xh_eqb 1 4 ([], XE) lex_hist with
+   | Some (s, r) => r = hash XE XL XB lex_ref /\ abs XE xh_eqb 1 4 s r = Some lex_ref
+   | None => False end) /\
+  lex_ref = B (L [false; false; false; false] 5) (L [true; false; false; false] 3) /\
+  (* the lower sub-tree of batch 1 is stored, then deleted when batch 2 rewrites it *)
+  (match layered_history XE XL XB xh_eqb 2 2 ([], XE) (firstn 1 lex_hist) with
+   | Some (s, r) => sget xh_eqb lex_low1 s = Some [(1, NL [false; false; false; false] 1); (1, NL [false; false; true; false] 2)] /\
+                    (* dropping it from the store breaks reading the trie back *)
+                    abs XE xh_eqb 2 2 (sdel xh_eqb lex_low1 s) r = None
+   | None => False end) /\
+  (match layered_history XE XL XB xh_eqb 2 2 ([], XE) (firstn 2 lex_hist) with
+   | Some (s, r) => sget xh_eqb lex_low1 s = None
+   | None => False end).
+Proof. vm_compute. repeat split; reflexivity. Qed.
